@@ -204,7 +204,7 @@ MC_INSTANCES = {"chain": mc_chain, "throttle": mc_throttle}
 
 # Bug variants of the model I: refuted (TLC must find a violation of Accepted) / accepted (TLC must not)
 REFUTED = [("globals_first", "chain"), ("ignore_enabled", "chain"), ("resp_current", "chain"), ("acct_stuck", "chain"),
-           ("early_skips_resp", "chain"), ("diag_on_request", "chain"), ("last_early_wins", "throttle")]
+           ("early_skips_resp", "chain"), ("diag_on_request", "chain"), ("diag_current", "chain"), ("last_early_wins", "throttle")]
 ACCEPTED = [("short_circuit", "throttle"), ("acct_per_remedy", "chain"), ("auth_no_memo", "chain")]
 # witnesses: invariant that must be VIOLATED on the instance (the situation is reached)
 WITNESS = [("PerAlive", "chain"), ("CfgAlive", "chain"), ("NoEarly", "chain"), ("NoEarlyMod", "chain"), ("NoDiag", "chain"),
@@ -393,7 +393,7 @@ def execute(ctx, binary, scripts, tag):
     raise Broken("harness failed rc=%d\nstdout: %s\nstderr: %s" % (last.returncode, last.stdout[-1500:], last.stderr[-3000:]))
 
 
-def validate(ctx, events, tag, max_rounds=6):
+def validate(ctx, events, tag, max_rounds=3):
     """TLC-validate one trace (config + histories).  Returns (accepted histories, rejected, drift) - rejected: list of
     dict(config, hist, at, clause); drift: number of histories in which the implementation-shaped model predicted another
     event than the one recorded (MODEL-DRIFT, not a verdict).  A rejected history is removed and the rest re-validated."""
@@ -466,6 +466,9 @@ def judge(ctx, binary, scripts, traces, tag, stats):
             if any(e["ev"] == "req" and e["out"]["early"] and e["hasra"] for e in h) and any(e["ev"] == "res" and e["diag"] for e in h):
                 stats["nontrivial"] += 1
         for rej in rejected:
+            stats["rejected"] += 1
+            if len(ctx.violations) + len(ctx.known_hits) >= 3:
+                continue                        # the first rejections are re-executed and reported; the rest is counted
             e = rej["hist"][min(rej["at"], len(rej["hist"]) - 1)]
             script = {"config": sc["config"], "files": sc["files"], "histories": [[strip(x) for x in rej["hist"]]]}
             t2 = execute(ctx, binary, [script], "repro")[0]
@@ -486,7 +489,7 @@ def model_jobs(ctx):
     and the -simulate walks for the replay; run side by side in one pool"""
     T = ctx.thorough
     quick = {"chain": {"maxev": 5}, "throttle": {"maxev": 5}}
-    deep = {"chain": {"maxev": 7, "maxtx": 4, "maxnow": 7}, "throttle": {"maxev": 7, "maxtx": 5}}
+    deep = {"chain": {"maxev": 6, "maxtx": 4, "maxnow": 7}, "throttle": {"maxev": 7, "maxtx": 5}}
     jobs = [("I=>P", inst, "none", ("Accepted",), (deep if T else quick)[inst]) for inst in MC_INSTANCES]
     jobs += [("walks", inst, "none", ("Accepted", "Emit"), {"maxev": 8, "maxtx": 6, "maxap": 2, "maxnow": 30}) for inst in MC_INSTANCES]
     jobs += [("accepted-variant", inst, bug, ("Accepted",), {}) for bug, inst in (ACCEPTED if T else ACCEPTED[:1])]
@@ -542,10 +545,10 @@ def run(ctx):
     ctx.assumptions += ["one tick = 500 ms; histories stay inside the 30 s retention of a pinned version", "sequential histories",
                         "every transaction is a new sequence (retry state of C17 not composed)", "api_key authentication only",
                         "patterns of depth <= 3 without the shadowed-best-pattern situation of C13's open finding"]
-    stats = {"histories": 0, "events": 0, "transactions": 0, "nontrivial": 0, "drift": 0}
+    stats = {"histories": 0, "events": 0, "transactions": 0, "nontrivial": 0, "drift": 0, "rejected": 0}
 
     # seeded random configurations and histories are recorded while TLC works on the model
-    ncfg, nh, hl = (20, 6, 20) if not T else (240, 16, 30)
+    ncfg, nh, hl = (20, 6, 20) if not T else (100, 16, 30)
     cfgs = [rand_config(ctx.rng, n) for n in range(ncfg)]
     scripts = [script_of(c, [rand_history(ctx.rng, c, hl, "%d_%d" % (n, i)) for i in range(nh)]) for n, c in enumerate(cfgs)]
     both = parallel(lambda f: f(), [lambda: model_jobs(ctx), lambda: execute(ctx, binary, scripts, "rand")], n=2)
@@ -576,7 +579,9 @@ def run(ctx):
     ctx.cov["model_drift"] = stats["drift"] > 0
     ctx.notes.append("walks replayed: %d; recorded events judged: %d; histories on which the model I predicted another event than recorded: %d"
                      % (nwalks, stats["events"], stats["drift"]))
-    if stats["nontrivial"] < 3:
+    if stats["rejected"]:
+        ctx.notes.append("%d histories rejected by the specification (the first ones re-executed and reported)" % stats["rejected"])
+    if stats["nontrivial"] < 3 and not ctx.violations:
         raise Broken("vacuous run: only %d non-trivial histories" % stats["nontrivial"])
 
 
